@@ -42,5 +42,7 @@ verus! {
 
 //%slice parser.rs seqtail fn parse_mapping ;; if let Expression::Match(Match::All, _) | Expression::Match(Match::Of(_), _) = &e { ;; Expression::BooleanGroup(BoolSym::Or, group) +1 ;; fn seqtail(e: Expression, misc: Option<ModSym>, group: Vec<Expression>, multiple: bool, boolean: bool, mapping: bool, number: bool, string: bool) -> crate::Result<Expression> ;; Ok(@)
 
+//%slice optimiser.rs shake_needles fn shake_1 ;; after:for ((field, cast, insensitive), searches) in needles { ;; aho.push(expression); +1 ;; fn shake_needles(field: String, cast: bool, insensitive: bool, searches: Vec<(MatchType, String)>, contains: &mut Vec<Expression>, ends_with: &mut Vec<Expression>, exact: &mut Vec<Expression>, starts_with: &mut Vec<Expression>, aho: &mut Vec<Expression>) ;; -
+
 } // verus!
 fn main() {}
